@@ -199,6 +199,17 @@ def create_allocation_list(context, data, consumers):
             # used value of 0.
             allocations = alloc_obj.get_all_by_consumer_id(
                 context, consumer_uuid)
+            if (not allocations and
+                    data[consumer_uuid].get('consumer_generation')
+                    is not None):
+                # The generation that was verified is that of a consumer
+                # holding allocations: another request has removed them
+                # (and the consumer) in the meantime.
+                raise webob.exc.HTTPConflict(
+                    'consumer generation conflict - the allocations of '
+                    'consumer %s were removed by another request' %
+                    consumer_uuid,
+                    comment=errors.CONCURRENT_UPDATE)
             for allocation in allocations:
                 allocation.used = 0
                 # Write with the consumer whose generation was verified,
@@ -450,6 +461,14 @@ def _set_allocations_for_consumer(req, schema):
             with excutils.save_and_reraise_exception():
                 if created_new_consumer:
                     delete_consumers([consumer])
+        if not allocations and data.get('consumer_generation') is not None:
+            # The generation that was verified is that of a consumer holding
+            # allocations: another request has removed them (and the
+            # consumer) in the meantime.
+            raise webob.exc.HTTPConflict(
+                'consumer generation conflict - the allocations of consumer '
+                '%s were removed by another request' % consumer_uuid,
+                comment=errors.CONCURRENT_UPDATE)
         for allocation in allocations:
             allocation.used = 0
             # Write with the consumer whose generation was verified, not with
